@@ -5,7 +5,8 @@ import box, drv, scen, gen, emit, ties, cases
 SAN_RE = re.compile(rb"runtime error:|AddressSanitizer|UndefinedBehaviorSanitizer|SUMMARY: |terminate called|Segmentation fault|core dumped|stack-buffer|heap-buffer")
 
 EXTREME = [b"0", b"1", b"2147483647", b"2147483648", b"4294967296", b"2305843009213693951", b"2305843009213693952", b"4611686018427387904",
-           b"9223372036854775807", b"9223372036854775808", b"18446744073709551616", b"99999999999999999999999"]
+           b"9223372036854775807", b"9223372036854775808", b"9223372036854775810", b"9300000000000000000", b"9999999999999999999", b"10000000000000000000",
+           b"18446744073709551615", b"18446744073709551616", b"99999999999999999999999"]
 
 
 def blind(rng, data: bytes) -> bytes:
@@ -39,6 +40,8 @@ def run(R):
     if not R.build() or not R.build(sanitize=True):
         return
     R.lean(["C07"])
+    import hunted
+    hunted.run(R, "C07")
     quick = R.tier == "quick"
     rng = R.rng
     # in-process ties on the sanitised harness with extreme numbers: a sanitizer abort shows up as a crash of the harness
@@ -87,13 +90,14 @@ def run(R):
                     tree[p] = ("f", blind(rng, tree[p][1]), tree[p][2])
             opts = list(rng.choice(OPTS)) + (list(rng.choice(OPTS)) if rng.random() < 0.3 else [])
             argv = opts + [b"-p1", b"-i", drv.PATCHNAME] if rng.random() < 0.8 else opts + [sorted(A)[0] if A else b"f", drv.PATCHNAME]
-            jobs.append(dict(cut=R.cut_san, tree=tree, argv=argv, sanitize=True, timeout=20))
+            # (mutated patches may name any path: these runs are made as an unprivileged user)
+            jobs.append(dict(cut=R.cut_san, tree=tree, argv=argv, sanitize=True, timeout=20, uid=65534))
             meta.append((bad, argv))
     finally:
         P.close()
     # corpus: every numeric position of every format set to the values where signed arithmetic would overflow
     M = b"9223372036854775807"
-    for big in (M, b"9223372036854775806", b"4611686018427387904", b"2305843009213693952"):
+    for big in (M, b"9223372036854775806", b"4611686018427387904", b"2305843009213693952", b"9300000000000000000", b"9999999999999999999", b"10000000000000000000"):
         probes = [b"--- f\n+++ f\n@@ -" + big + b",0 +1 @@\n+x\n", b"--- f\n+++ f\n@@ -" + big + b" +1 @@\n-a\n+x\n", b"--- f\n+++ f\n@@ -1 +" + big + b" @@\n-zz\n+x\n",
                   b"--- f\n+++ f\n@@ -1,2 +1,2 @@\n a\n-b\n+B\n@@ -" + big + b",1 +" + big + b",1 @@\n-q\n+r\n",
                   b"0," + big + b"c1\n< a\n---\n> b\n", b"1a" + big + b"\n> x\n", b"1c1," + big + b"\n< a\n---\n> b\n", big + b"d0\n< a\n", b"1," + big + b"d0\n< a\n",
@@ -103,6 +107,21 @@ def run(R):
             for opts in ([], [b"-R"], [b"-f"], [b"--reject-format=context"], [b"--reject-format=unified"], [b"--verbose"], [b"-N"]):
                 jobs.append(dict(cut=R.cut_san, tree=box.Tree({b"f": ("f", b"a\nb\nc\n", 0o644), drv.PATCHNAME: ("f", pr, 0o644)}), argv=opts + [b"f", drv.PATCHNAME], sanitize=True, timeout=20))
                 meta.append((pr, opts + [b"f", drv.PATCHNAME]))
+    # a '\\ No newline at end of file' line at every position of small hunks of every format, empty sides included
+    BS = b"\\ No newline at end of file\n"
+    bases = [b"--- f\n+++ f\n@@ -1,2 +1,2 @@\n a\n-b\n+B\n", b"--- f\n+++ f\n@@ -1 +0,0 @@\n-a\n", b"--- f\n+++ f\n@@ -0,0 +1 @@\n+a\n", b"--- f\n+++ f\n@@ -1,0 +1,0 @@\n",
+             b"*** f\n--- f\n***************\n*** 1,2 ****\n  a\n! b\n--- 1,2 ----\n  a\n! B\n", b"*** f\n--- f\n***************\n*** 1,2 ****\n--- 1,0 ----\n",
+             b"*** f\n--- f\n***************\n*** 1 ****\n- a\n--- 0 ----\n", b"*** f\n--- f\n***************\n*** 0 ****\n--- 1 ----\n+ a\n",
+             b"*** f\n--- f\n***************\n*** 1,0 ****\n--- 1,0 ----\n", b"*** f\n--- f\n***************\n*** 1,2 ****\n  a\n- b\n--- 1 ----\n",
+             b"1c1\n< a\n---\n> A\n", b"1d0\n< a\n", b"0a1\n> a\n", b"1,2c1\n< a\n< b\n---\n> A\n"]
+    for base in bases:
+        ls = base.split(b"\n")[:-1]
+        for k in range(2, len(ls) + 1):
+            for rep in (1, 2):
+                pr = b"".join(l + b"\n" for l in ls[:k]) + BS * rep + b"".join(l + b"\n" for l in ls[k:])
+                for opts in ([], [b"-R"], [b"--reject-format=context"]):
+                    jobs.append(dict(cut=R.cut_san, tree=box.Tree({b"f": ("f", b"a\nb\n", 0o644), drv.PATCHNAME: ("f", pr, 0o644)}), argv=opts + [b"-f", b"f", drv.PATCHNAME], sanitize=True, timeout=20))
+                    meta.append((pr, opts + [b"-f", b"f", drv.PATCHNAME]))
     res = drv.run_many(jobs)
     dist = {}
     for (bad, argv), r in zip(meta, res):
@@ -117,10 +136,32 @@ def run(R):
         if r.exit == 2 and not r.stderr.strip():
             R.oracle_fail("exit status 2 without a diagnostic", data)
     R.dist["sanitised sb_patch outcomes"] = dist
+    # an I/O error must end in a diagnostic, never in std::terminate / a signal: every system call of C10's scenarios failed once
+    from props import c10
+    import faults
+    fj, fm = [], []
+    for c in c10.scenarios(rng, None, quick):
+        r0, calls, nall = faults.baseline(R.cut, c)
+        for idx, (call, k, args) in enumerate(calls):
+            e = ["EIO", "ENOSPC", "EFBIG"][idx % 3]
+            fj.append(dict(cut=R.cut, tree=c["tree"], argv=c["argv"], stdin=c.get("stdin", b""), strace={"inject": f"{call}:error={e}:when={k}"}))
+            fm.append((c["name"], f"{e} at {call}#{k} {args[:60]}", c))
+    crashed = 0
+    for (name, what, c), r in zip(fm, drv.run_many(fj)):
+        R.evaluations += 1; R.nontrivial.add(("fault", name, what))
+        if r.timeout:
+            continue
+        if SAN_RE.search(r.stderr) or r.exit not in (0, 1, 2):
+            crashed += 1
+            R.oracle_fail(f"crash on an I/O error ({name}: {what}): exit {r.exit}",
+                          {"scenario": name, "fault": what, "argv": [a.decode() for a in c["argv"]], "exit": r.exit, "stderr": r.stderr.decode("latin1")[-500:],
+                           "tree": {p.decode("latin1"): (v[1].hex() if v[0] == "f" else v[0]) for p, v in c["tree"].items()}})
+    R.dist["single-fault runs checked for crashes"] = {"runs": len(fj), "crashed": crashed}
 
 
 RULE = ("in-process ties T2-T7 on the ASan+UBSan build with extreme numbers (0, 2^31, 2^61-1, 2^61, 2^63-1, 2^63, 2^64, 23 digits) in ranges, offsets and "
         "options; the sanitised sb_patch on grammar-aware mutations (numbers replaced, lines deleted/duplicated/swapped, truncation), blind byte mutations "
         "(flips, NUL, very long lines) and random bytes, with mutated targets and option mixes; any sanitizer report, signal or exit status outside {0,1,2} "
-        "is a violation; status 2 needs a diagnostic.")
+        "is a violation; status 2 needs a diagnostic. A no-newline marker at every position of small hunks of every format (empty sides included); "
+        "every system call of the C10 scenarios failed once (EIO/ENOSPC/EFBIG): the run must not end in std::terminate or a signal.")
 ASSUME = ["heap misuse inside std:: containers, use after move and stack exhaustion are only searched for by the sanitised runs, not proved absent"]
